@@ -104,6 +104,7 @@ func screenProps(r *core.Run, prop string) {
 				r.Count("resizes", st.resizes)
 				r.Count("controls_interpreted", st.controls)
 				r.Count("unknown_controls", st.unknownControls)
+				r.Count("output_grammar_errors_seen_(decided_by_C09)", st.grammarErrors)
 				if st.shows+st.syncs+st.resizes >= 3 {
 					r.Case(fmt.Sprintf("%s|%s|%d", phase, se.label(), hi))
 				} else {
